@@ -39,6 +39,7 @@ import (
 	str "github.com/echovault/sugardb/internal/modules/string"
 	"github.com/echovault/sugardb/internal/raft"
 	"github.com/echovault/sugardb/internal/snapshot"
+	"github.com/tidwall/resp"
 	"io"
 	"log"
 	"net"
@@ -492,7 +493,11 @@ func (server *SugarDB) handleConnection(conn net.Conn) {
 		server.acl.RegisterConnection(&conn)
 	}
 
-	w, r := io.Writer(conn), io.Reader(conn)
+	w := io.Writer(conn)
+	// A command is delimited by its RESP frame, not by what one read returns: one reader for the
+	// lifetime of the connection keeps what it has buffered (commands sent together in one write)
+	// and waits for the rest of a command that arrives in several pieces.
+	r := resp.NewReader(conn)
 
 	// Generate connection ID
 	cid := server.connId.Add(1)
@@ -517,7 +522,7 @@ func (server *SugarDB) handleConnection(conn net.Conn) {
 	}()
 
 	for {
-		message, err := internal.ReadMessage(r)
+		value, _, err := r.ReadValue()
 
 		if err != nil && errors.Is(err, io.EOF) {
 			// Connection closed
@@ -525,6 +530,12 @@ func (server *SugarDB) handleConnection(conn net.Conn) {
 			break
 		}
 
+		if err != nil {
+			log.Println(err)
+			break
+		}
+
+		message, err := value.MarshalRESP()
 		if err != nil {
 			log.Println(err)
 			break
